@@ -460,6 +460,43 @@ func scenarios() map[string]*sched.Scenario {
 		},
 	}
 
+	// two goroutines encode at the same time (a publish being stored and a frame being forwarded): the pooled
+	// encoder and whatever else the codec reuses must not be shared between the two calls
+	m["encode"] = &sched.Scenario{
+		Name:  "encode",
+		Files: []string{"internal/message/codec.go", "internal/message/message.go"},
+		Body: func(s *sched.Sched) {
+			ma := message.Message{ID: message.ID(bytes.Repeat([]byte{0xA1}, 24)), Channel: []byte("a/b/"), Payload: bytes.Repeat([]byte("A"), 300), TTL: 60}
+			mb := message.Message{ID: message.ID(bytes.Repeat([]byte{0xB2}, 24)), Channel: []byte("b/"), Payload: bytes.Repeat([]byte("Bb"), 90), TTL: 0}
+			fr := message.Frame{mb, ma, mb}
+			// warm-up: the binary library looks a type's codec up once per process (GetBinaryCodec is instrumented
+			// code); without this the first execution would have more scheduling points than its replays
+			message.DecodeMessage(ma.Encode())
+			message.DecodeFrame(fr.Encode())
+			okA, okF := false, false
+			s.Go("M", func() {
+				buf := ma.Encode()
+				out, err := message.DecodeMessage(buf)
+				okA = err == nil && bytes.Equal(out.ID, ma.ID) && bytes.Equal(out.Channel, ma.Channel) && bytes.Equal(out.Payload, ma.Payload) && out.TTL == ma.TTL
+			})
+			s.Go("F", func() {
+				buf := fr.Encode()
+				out, err := message.DecodeFrame(buf)
+				okF = err == nil && len(out) == 3
+				for i := 0; okF && i < 3; i++ {
+					okF = bytes.Equal(out[i].ID, fr[i].ID) && bytes.Equal(out[i].Channel, fr[i].Channel) && bytes.Equal(out[i].Payload, fr[i].Payload) && out[i].TTL == fr[i].TTL
+				}
+			})
+			s.AtEnd(func() { s.Obs("message=%v frame=%v", okA, okF) })
+		},
+		Check: func(x *sched.Exec) (string, string) {
+			if len(x.Obs) != 1 || x.Obs[0] != "message=true frame=true" {
+				return "a:concurrent-encode:roundtrip", "a message and a frame encoded at the same time do not both decode to what was encoded: " + strings.Join(x.Obs, " ")
+			}
+			return "", ""
+		},
+	}
+
 	m["peer"] = &sched.Scenario{
 		Name:  "peer",
 		Files: []string{"internal/service/cluster/peer.go"},
@@ -532,7 +569,7 @@ func scenarios() map[string]*sched.Scenario {
 	return m
 }
 
-var schedParts = []string{"ids", "peer"}
+var schedParts = []string{"ids", "peer", "encode"}
 
 func bounds(c *core.Ctx) int {
 	if c.Quick() {
@@ -575,6 +612,7 @@ func run(c *core.Ctx) {
 	partA(c)
 	partB(c)
 	partD(c)
+	partF(c)
 	evals := c.Count("evaluations")
 	c.Set("evaluations", evals)
 	c.Set("distinct_nontrivial", c.DistinctCount("nontrivial"))
@@ -625,7 +663,11 @@ func replay(c *core.Ctx, raw json.RawMessage) {
 		var sc splitCase
 		json.Unmarshal(raw, &sc)
 		checkSplit(c, sc)
-	case "ids", "peer":
+	case "f":
+		var cc chunkCase
+		json.Unmarshal(raw, &cc)
+		runChunks(c, cc)
+	case "ids", "peer", "encode":
 		sc := scenarios()[probe.Part]
 		sched.EnableFiles(sc.Files...)
 		x := sched.Run(probe.Choices, true, sc.Body)
